@@ -90,6 +90,12 @@ func TestSim(t *testing.T) {
 		t.Skip("no -sim.prop")
 	}
 	w := bufio.NewWriter(os.Stdout)
+	hardExit = func(c *Case, r *Result) {
+		r.Digest = "deadlock"
+		strip(r, c)
+		emit(w, r)
+		os.Exit(0)
+	}
 	if *fReplay != "" {
 		b, err := os.ReadFile(*fReplay)
 		if err != nil {
